@@ -52,3 +52,16 @@ Example c08_a_path :
   let stk := [FTitle; FFn [35;105;110;118;111;107;101]; FFn [76;117;97]; FFn [102;114;97;109;101]] in
   (length stk < 100)%nat /\ detect_loop (stk ++ [FTemplate [98]]) = false.
 Proof. split; [cbn; repeat constructor | reflexivity]. Qed.
+
+(* frame:preprocess(t) expands t from inside the Lua callback, under a longer expansion path.  For t made of text and flat
+   calls (C04's fragment), under every path below the depth limit on which none of the called templates is being
+   expanded, the model gives what t gives on the page: every call replaced by the transclusion rule's result. *)
+Theorem c08_preprocess_is_expansion_on_the_page :
+  forall pfnames lib opts stk page,
+    (length stk < 100)%nat -> forallb (flat_item pfnames lib) page = true -> fresh_items stk page = true ->
+    o_tfn opts = [] -> o_pfn opts = [] ->
+    exists F, forall fuel, (F <= fuel)%nat ->
+      expand_recurse pfnames lib opts fuel stk true page = expand_recurse pfnames lib opts fuel [FTitle] true page /\
+      expand_recurse pfnames lib opts fuel stk true page = Some (page_result lib page).
+Proof. exact preprocess_anywhere. Qed.
+Print Assumptions c08_preprocess_is_expansion_on_the_page.
